@@ -57,6 +57,24 @@ func (c *Ctx) objectKeyBindingRules(r *Report, prefix string) {
 			seen[name] = true
 			// value: result 0 of an invoke
 			val := st.Val
+			// "obj, err = helper(key)" with the helper's failure arm handing back nil: the stored value merges the
+			// constructor's result with nil; the field is then either that object or nil (and the error is returned)
+			if ph, isPhi := val.(*ssa.Phi); isPhi {
+				var only ssa.Value
+				n := 0
+				for _, e := range ph.Edges {
+					if isNilConst(e) {
+						continue
+					}
+					if only != e {
+						n++
+					}
+					only = e
+				}
+				if n == 1 {
+					val = only
+				}
+			}
 			if ex, ok := val.(*ssa.Extract); ok && ex.Index == 0 {
 				val = ex.Tuple
 			}
@@ -291,6 +309,17 @@ func (c *Ctx) headerArmRules(r *Report, prefix string, a *ikeAnchors) {
 	for _, call := range c.callsTo(decode, decodePayload) {
 		if _, fld, ok := fieldLoad(call.Call.Args[1]); ok && fld == "PayloadBytes" {
 			okDec = true
+		}
+	}
+	// ... or the walker itself on the parsed header's next-payload value and PayloadBytes (DecodePayload's body
+	// shared through a helper)
+	for _, call := range c.callsTo(decode, contDecode) {
+		if len(call.Call.Args) == 3 {
+			_, f1, ok1 := fieldLoad(call.Call.Args[1])
+			_, f2, ok2 := fieldLoad(call.Call.Args[2])
+			if ok1 && ok2 && f1 == "NextPayload" && f2 == "PayloadBytes" {
+				okDec = true
+			}
 		}
 	}
 	pcalls := c.callsTo(decode, parse)
